@@ -977,6 +977,11 @@ def run(ck):
         ck.rule(k, v)
     check_fit_score(ck, repo)
     check_b(ck, repo)
+    from .sem import share_clauses
+
+    share_clauses(ck, "c02", {
+        "C02.c": ("C05.d", "fit never writes into the caller's X, y or sample_weight: the weights used at every IRLS step are the caller's"),
+    }, keep=lambda o: o.file.endswith("quantile_regression.py"))
     ck.require_count("C05.a", 8, "IRLS weights in 4 configurations, score in 4 configurations")
     ck.require_count("C05.c", 12, "degrees, clipping, targets, design in 4 configurations; monitored error")
     ck.require_count("C05.b", 5, "inner solver options, design matrix x2, intercept_ x2, coef_ x2")
